@@ -59,7 +59,7 @@ const sigF5 = "invented-edge-M3"
 // monC01: no two boundary edges of the geometries returned for a tile matrix cross in their interiors.
 func monC01(o *Obs) []finding {
 	var fs []finding
-	for _, z := range o.Case.IDs {
+	for _, z := range o.UIDs {
 		l := o.Level(z)
 		edges := outEdges(l)
 		var known, other *finding
@@ -92,7 +92,7 @@ func monC01(o *Obs) []finding {
 
 // monC02b: when nothing collapses the result is exactly the ring-by-ring concatenation of routed edges.
 func monC02b(o *Obs) (fs []finding, checked int) {
-	for _, z := range o.Case.IDs {
+	for _, z := range o.UIDs {
 		l := o.Level(z)
 		minLen := math.MaxInt
 		for _, ch := range l.Facts.Chains {
@@ -124,7 +124,7 @@ func monC02b(o *Obs) (fs []finding, checked int) {
 // monCentre: every returned coordinate is (within 64 integer units) a pixel centre of the integer grid.
 func monCentre(o *Obs) []finding {
 	var fs []finding
-	for _, z := range o.Case.IDs {
+	for _, z := range o.UIDs {
 		l := o.Level(z)
 		if len(l.OffCentre) > 0 {
 			fs = append(fs, finding{"not-a-pixel-centre", "", fmt.Sprintf("tile matrix %d: %s", z, l.OffCentre[0]), z})
@@ -184,7 +184,7 @@ func monC04(o *Obs) (fs []finding, st map[int]c04stats) {
 			inEdges = append(inEdges, [2]P{r[j], r[(j+1)%len(r)]})
 		}
 	}
-	for _, z := range o.Case.IDs {
+	for _, z := range o.UIDs {
 		l := o.Level(z)
 		g := l.G
 		pix := g.Pix
@@ -301,7 +301,7 @@ func monC05(o *Obs) (fs []finding, st c05stats) {
 			fs = append(fs, finding{"empty-list", "", fmt.Sprintf("tile matrix %d is mapped to an empty list", z), z})
 		}
 	}
-	for _, z := range c.IDs {
+	for _, z := range o.UIDs {
 		l := o.Level(z)
 		if len(l.OutK) > 1 {
 			st.split++
@@ -409,7 +409,7 @@ func polyEq(a, b [][][2]float64) bool {
 
 // monC18: for max multiplicity <= 2: no invented edges, holes in-or-on shell, signed area conserved.
 func monC18(o *Obs) (fs []finding, checked, m2 int) {
-	for _, z := range o.Case.IDs {
+	for _, z := range o.UIDs {
 		l := o.Level(z)
 		if l.Facts.MaxMult > 2 {
 			continue
